@@ -235,10 +235,14 @@ async fn workload(mut sim: Sim, o: Opts) -> Result<Value, String> {
     };
     let stream_limit = if o.mode == "abandon" || (o.mode == "storm" && sim.rng.gen_bool(0.5)) { Some(8u64) } else { None };
     let mut cfgs: Vec<anemo::Config> = Vec::new();
+    // what each node's own outbound middleware adds to every call it makes
+    let mut layer_delays: Vec<u64> = Vec::new();
     for (i, k) in keys.iter().enumerate() {
         // some networks are built with a user outbound layer: the defaults must still apply
         sim::USER_OUTBOUND_LAYER.with(|c| c.set(sim.rng.gen_bool(0.5)));
-        sim::USER_OUTBOUND_DELAY_MS.with(|c| c.set([0u64, 0, 150, 600][sim.rng.gen_range(0..4)]));
+        let layer_delay = [0u64, 0, 150, 600][sim.rng.gen_range(0..4)];
+        sim::USER_OUTBOUND_DELAY_MS.with(|c| c.set(layer_delay));
+        layer_delays.push(if sim::USER_OUTBOUND_LAYER.with(|c| c.get()) { layer_delay } else { 0 });
         if o.mode == "abandon" && i < 2 {
             // back-pressure at the top of the serving stack and a per-peer limiter below it
             sim::SERVER_LIMITS.with(|c| c.set(Some((3, 2))));
@@ -300,6 +304,9 @@ async fn workload(mut sim: Sim, o: Opts) -> Result<Value, String> {
                 "in_default_ms": config.inbound_request_timeout_ms,
                 "out_default_ms": config.outbound_request_timeout_ms,
                 "stream_limit": stream_limit,
+                // every pair is connected exactly once below, dialed by the smaller node index (the
+                // replace workload re-dials in both directions later on)
+                "mesh": o.mode != "replace",
             }),
         );
     }
@@ -550,6 +557,8 @@ async fn workload(mut sim: Sim, o: Opts) -> Result<Value, String> {
                 must_succeed: !limits.iter().flatten().any(|l| *l < 128)
                     // (nor with a default deadline of zero on the way)
                     && cfgs[a].outbound_request_timeout_ms != Some(0)
+                    // (nor when the caller's own outbound middleware takes longer than its default allows)
+                    && cfgs[a].outbound_request_timeout_ms.map_or(true, |d| d > layer_delays[a] + 200)
                     && cfgs[b].inbound_request_timeout_ms != Some(0),
             },
         ));
